@@ -72,15 +72,21 @@ def explore(m0, series, cfg, threads, bound, max_schedules=20000, recheck_every=
     ref = outcome_of(o1, ws.snapshot(root))
     res = {'schedules': 0, 'traces': set(), 'outcomes': {}, 'violations': [], 'max_decisions': 0, 'capped': False, 'workers': 0, 'machinery': [],
            'ran_ahead': 0, 'preempted': 0}
-    stack = [((), 0)]
+    # schedules are run in the order of their number of preemptions (iterative context bounding): when the budget of runs
+    # is used up, every schedule with fewer preemptions than the next one in the queue has been run
+    import heapq
+    heap = [(0, 0, ())]
+    tick = 0
     seen_prefix = set()
-    while stack:
-        prefix, cost = stack.pop()
+    res['bound_completed'] = bound
+    while heap:
+        cost, _, prefix = heapq.heappop(heap)
         if prefix in seen_prefix:
             continue
         seen_prefix.add(prefix)
         if res['schedules'] >= max_schedules:
             res['capped'] = True
+            res['bound_completed'] = cost - 1
             break
         o, snap = run_schedule(m0, series, cfg, threads, list(prefix), root, trace)
         res['schedules'] += 1
@@ -134,7 +140,8 @@ def explore(m0, series, cfg, threads, bound, max_schedules=20000, recheck_every=
                         continue
                     c = pre + (1 if (cur is not None and cur in en and alt != cur) else 0)
                     if c <= bound:
-                        stack.append((chosen[:i] + (alt,), c))
+                        tick += 1
+                        heapq.heappush(heap, (c, tick, chosen[:i] + (alt,)))
             if cur is not None and cur in en and ch != cur:
                 pre += 1
     res['traces'] = len(res['traces'])
